@@ -9,7 +9,7 @@ import random
 from vf import core
 
 THEOREMS = ["cond_count_inv", "cond_no_spurious", "cond_single_consumer", "cond_signal_not_lost",
-            "cond_atomic_unlock_wait", "cond_wait_returns_locked"]
+            "cond_atomic_unlock_wait", "cond_wait_returns_locked", "cond_erasure"]
 WAIT, WAITIF, SIGNAL, SIGNALM, BCAST, BCASTM, SETFLAG, READ = 1, 2, 3, 4, 5, 6, 7, 8
 T1_SOURCES = ["src/fiber_manager.c", "src/fiber.c", "src/fiber_mutex.c", "src/fiber_cond.c",
               "src/fiber_spinlock.c", "src/hazard_pointer.c"]
@@ -49,6 +49,8 @@ def monitor(case, tr, raw, stats=None):
     expect = {}                  # thread -> number of waiters its signal/broadcast claimed
     im_holder = None             # holder of the internal mutex as seen through the cond list accesses
     blocked, spinning = [], []
+    in_maint_unlock = set()      # waiters between their deferred unlock and their sleep
+    returned_now = set()         # waiters whose cond_wait returned in the current call
 
     def cur_op(t):
         return progs[t][opidx[t]][0] if t < n and opidx[t] < len(progs[t]) else None
@@ -60,6 +62,8 @@ def monitor(case, tr, raw, stats=None):
             continue
         if t >= n:
             continue
+        if kind == 919 and loc == 0 and val == 1:
+            in_maint_unlock.discard(t)
         op = cur_op(t)
         if loc == L_OWNER and kind == 19:
             if owner is not None and owner != t:
@@ -71,6 +75,8 @@ def monitor(case, tr, raw, stats=None):
             if owner != t:
                 return "user mutex unlocked by %d but the owner is %s" % (t, owner)
             owner = None
+            if op in (WAIT, WAITIF) and t in registered_now and t not in returned_now and val != 0:
+                in_maint_unlock.add(t)
             if (op == WAIT or (op == WAITIF and flagseen.get(t) == 0)) and t not in registered_now:
                 return ("user mutex released on behalf of waiter %d before it registered in waiter_count "
                         "(unlock and wait are not atomic)" % t)
@@ -120,9 +126,12 @@ def monitor(case, tr, raw, stats=None):
         elif kind == 99 and loc == 900 and stats is not None:
             if op in (SIGNAL, SIGNALM, BCAST, BCASTM) and t in expect:
                 stats["spin"] = stats.get("spin", 0) + 1
+            elif t in in_maint_unlock:
+                stats["maint_spin"] = stats.get("maint_spin", 0) + 1
         elif kind == 909:
             if op in (WAIT, WAITIF) and val == 11:
                 returned += 1
+                returned_now.add(t)
                 if t in waiting:
                     return "waiter %d returned from cond_wait without having been released" % t
                 if t not in registered_now:
@@ -141,6 +150,8 @@ def monitor(case, tr, raw, stats=None):
             expect.pop(t, None)
             callsched[t] = 0
             registered_now.discard(t)
+            returned_now.discard(t)
+            in_maint_unlock.discard(t)
             flagseen.pop(t, None)
             opidx[t] += 1
     if spinning:
@@ -247,6 +258,8 @@ def run(ctx):
                                                "yields_of_a_claiming_signal/broadcast(spin on unlinked waiter or "
                                                "contended unlock)": stats.get("spin", 0),
                                                "broadcast_of_2_or_more": stats.get("bcast2", 0),
+                                               "yields_inside_do_maintenance(deferred unlock spins on an unlinked "
+                                               "mutex waiter)": stats.get("maint_spin", 0),
                                                "runs_ending_with_unsignalled_waiters": stats.get("blocked_runs", 0)},
                              "rule": "case = (wait/wait-if/signal/broadcast/set-flag/read programs per fiber, schedule)"})
         if (not ok or ctx.failures) and not ctx.violations:
@@ -289,7 +302,9 @@ TRUSTED = [
     "extraction: ExtrOcamlBasic only; OCaml driver coq/extract/driver.ml",
     "rt/rt.c (TSan-hook baton scheduler) and rt/t1.c (T1 machine: real fiber_manager.c/fiber.c, one pthread per fiber; "
     "context switch, run queues and event layer replaced)",
-    "hand-written models coq/T1K.v + coq/Cond.v; tie = identical per-access traces",
+    "hand-written models coq/T1K.v + coq/Cond.v (Cond.kstepC overrides T1K.kstep for one case: the yield of a failed "
+    "pop inside do_maintenance is only the fiber_scheduler_next point); tie = identical per-access traces",
+    "proof chain: CondPhase.pstep_sim (phases = stacks), CondSteps.inv_reach (invariant), CondThm (statements)",
     "SC interleaving; -O0 instrumented build",
 ]
 ASSUME = ["given C01 and C02 (a fiber behaves as a sequential process that is resumed once per wake-up): the T1 cut of DESIGN.md 3.4",
